@@ -80,6 +80,15 @@ pub fn pool(seed: u64) -> (Vec<String>, Vec<Value>) {
             }
         }
     }
+    // whitespace twins: the same token sequence spelled with different blanks (different
+    // offsets, same meaning) next to the original, so that histories revisit texts that a
+    // normalising cache key would merge
+    let twins: Vec<String> = exprs.iter().step_by(4).map(|e| refimpl::print::respace(e, &mut rng)).collect();
+    for t in twins {
+        if !exprs.contains(&t) {
+            exprs.push(t);
+        }
+    }
     (exprs, docs)
 }
 
@@ -346,11 +355,87 @@ fn one_byte_variants(rep: &mut Report, args: &Args) {
     }
 }
 
+/// Pairs of texts that differ only in blanks — where blanks matter (inside raw strings,
+/// quoted identifiers and literals; between two identifiers; in front of the expression,
+/// which moves every offset). Each pair is evaluated in both orders; the expected outcomes
+/// are known by construction.
+fn whitespace_pairs(rep: &mut Report, args: &Args) {
+    if args.shard != 0 {
+        return;
+    }
+    #[derive(Clone)]
+    enum Want {
+        Val(Value),
+        CompileError,
+        ErrorAt(usize),
+    }
+    let doc = json!({"foo bar": 1, "foobar": 2, "foo  bar": 3, "name": "ab", "s": "x", "foo": -4});
+    let mut cases: Vec<(String, Want)> = vec![];
+    for k in 0..4usize {
+        let sp = " ".repeat(k);
+        cases.push((format!("'a{}b'", sp), Want::Val(json!(format!("a{}b", sp)))));
+        cases.push((format!("name == 'a{}b'", sp), Want::Val(json!(k == 0))));
+        cases.push((format!("`\"a{}b\"`", sp), Want::Val(json!(format!("a{}b", sp)))));
+        cases.push((format!("\"foo{}bar\"", sp), Want::Val([json!(2), json!(1), json!(3), json!(null)][k].clone())));
+        cases.push((format!("foo{}bar", sp), if k == 0 { Want::Val(json!(2)) } else { Want::CompileError }));
+        cases.push((format!("{}abs(s)", sp), Want::ErrorAt(k + 3)));
+        cases.push((format!("{}abs(foo)", sp), Want::Val(json!(4))));
+        cases.push((format!("abs({}s)", sp), Want::ErrorAt(3)));
+        cases.push((format!("[`1`,{}'x']", sp), Want::Val(json!([1, "x"]))));
+    }
+    let input = rcvar_of(&doc);
+    let mut check = |rep: &mut Report, text: &str, want: &Want, after: &str| {
+        rep.evaluations += 1;
+        let r = guarded(|| jmespath::compile(text).map_err(|e| (true, e)).and_then(|x| x.search(&input).map_err(|e| (false, e))));
+        let ok = match (&r, want) {
+            (Ok(Ok(v)), Want::Val(w)) => value_of(v).map_or(false, |g| refimpl::json::val_eq(&g, w, 0.0)),
+            (Ok(Err((true, _))), Want::CompileError) => true,
+            (Ok(Err((false, e))), Want::ErrorAt(o)) => e.offset == *o,
+            _ => false,
+        };
+        if ok {
+            rep.count("whitespace_pair_ok");
+            rep.nontrivial(fnv(format!("ws|{}|{}", text, after).as_bytes()));
+        } else {
+            let got = match r {
+                Ok(Ok(v)) => v.to_string(),
+                Ok(Err((c, e))) => format!("{} error at offset {}: {}", if c { "compile" } else { "search" }, e.offset, e.reason),
+                Err(p) => format!("panic: {}", p),
+            };
+            let w = match want {
+                Want::Val(v) => v.to_string(),
+                Want::CompileError => "compile error".to_string(),
+                Want::ErrorAt(o) => format!("search error at offset {}", o),
+            };
+            rep.violation(
+                "C13/result-depends-on-history/whitespace-variant",
+                json!({"expression": text, "evaluated_after": after, "document": doc, "known_by_construction": w, "observed": got}),
+            );
+        }
+    };
+    for i in 0..cases.len() {
+        for j in 0..cases.len() {
+            if i == j {
+                continue;
+            }
+            // only texts that are equal once blanks are removed are interesting as pairs
+            let strip = |t: &str| t.chars().filter(|c| !c.is_whitespace()).collect::<String>();
+            if strip(&cases[i].0) != strip(&cases[j].0) {
+                continue;
+            }
+            check(rep, &cases[i].0, &cases[i].1, "(start of pair)");
+            check(rep, &cases[j].0, &cases[j].1, &cases[i].0);
+            check(rep, &cases[i].0, &cases[i].1, &cases[j].0);
+        }
+    }
+}
+
 pub fn run(args: &Args) {
     let mut rep = Report::new("C13");
     gap_sweep(&mut rep, args);
     family_sweep(&mut rep, args);
     one_byte_variants(&mut rep, args);
+    whitespace_pairs(&mut rep, args);
     let rt = make_runtime();
     let histories = args.n;
     let ops_per_history: usize = args.kv.get("ops").and_then(|v| v.parse().ok()).unwrap_or(2000);
